@@ -12,6 +12,7 @@ import (
 	"path/filepath"
 	"reflect"
 	"runtime"
+	"strings"
 	"sync"
 	"time"
 
@@ -31,9 +32,10 @@ import (
 
 type sreq struct {
 	ID     int      `json:"id"`
-	Kind   string   `json:"kind"` // new | compile | dns
-	Text   string   `json:"text"`
+	Kind   string   `json:"kind"` // new | compile | dns | merge
+	Text   string   `json:"text"` // configuration text; for kind merge: the entry path
 	Groups []string `json:"groups,omitempty"`
+	Chdir  string   `json:"chdir,omitempty"` // kind merge: working directory for this case
 }
 
 type sfield struct {
@@ -56,6 +58,9 @@ type sresp struct {
 	Nodes     []string `json:"nodes,omitempty"`
 	Filters   int      `json:"filters,omitempty"`
 	Rules     int      `json:"rules,omitempty"`
+	// kind merge: the merged sections, each rendered canonically, keyed by section name
+	Sections   map[string]string `json:"sections,omitempty"`
+	DupSection bool              `json:"dup_section,omitempty"`
 }
 
 func dumpStruct(section string, v any) []sfield {
@@ -125,6 +130,31 @@ func handle(req *sreq) *sresp {
 					resp.Err = err.Error()
 					return
 				}
+			}
+			resp.Stage = "done"
+		case "merge":
+			resp.Stage = "merge"
+			if req.Chdir != "" {
+				old, _ := os.Getwd()
+				os.Chdir(req.Chdir)
+				defer os.Chdir(old)
+			}
+			secs, _, err := config.NewMerger(req.Text).Merge()
+			if err != nil {
+				resp.Err = err.Error()
+				if resp.Err == "" {
+					resp.Err = "<empty error message>"
+				}
+				return
+			}
+			resp.Sections = map[string]string{}
+			for _, s := range secs {
+				if _, dup := resp.Sections[s.Name]; dup {
+					resp.DupSection = true
+				}
+				var b strings.Builder
+				canonSection(&b, fromImplSection(s))
+				resp.Sections[s.Name] = b.String()
 			}
 			resp.Stage = "done"
 		case "compile":
